@@ -145,7 +145,7 @@ type WorkerOut struct {
 	ViolationN  uint64              `json:"violation_n"`
 	Complete    bool                `json:"complete"`
 	WallS       float64             `json:"wall_s"`
-	Extra       map[string]uint64   `json:"extra,omitempty"`
+	Known       map[string]uint64   `json:"known,omitempty"` // finding id -> violating cases matching it
 }
 
 type Sample struct {
@@ -162,9 +162,9 @@ type Violation struct {
 const maxViolationsPerWorker = 400
 
 // RunWorker executes one shard in this process.
-func RunWorker(ck *Check, tier string, shard, n int, seed int64, deadline time.Time, tracePath string) *WorkerOut {
+func RunWorker(ck *Check, tier string, shard, n int, seed int64, deadline time.Time, tracePath string, findings []Finding) *WorkerOut {
 	start := time.Now()
-	out := &WorkerOut{Shard: shard, Hist: map[string]uint64{}, LegHist: map[string]uint64{}}
+	out := &WorkerOut{Shard: shard, Hist: map[string]uint64{}, LegHist: map[string]uint64{}, Known: map[string]uint64{}}
 	var stop atomic.Bool
 	var all []uint64
 	var nontriv []uint64
@@ -224,9 +224,20 @@ func RunWorker(ck *Check, tier string, shard, n int, seed int64, deadline time.T
 		out.Hist[res.Bucket]++
 		out.LegHist[c.Leg]++
 		if res.Violation != "" {
-			out.ViolationN++
-			if len(out.Violations) < maxViolationsPerWorker {
-				out.Violations = append(out.Violations, Violation{Case: *c, Msg: res.Violation})
+			v := Violation{Case: *c, Msg: res.Violation}
+			known := false
+			for j := range findings {
+				if findings[j].Matches(ck.ID, &v) {
+					out.Known[findings[j].ID]++
+					known = true
+					break
+				}
+			}
+			if !known {
+				out.ViolationN++
+				if len(out.Violations) < maxViolationsPerWorker {
+					out.Violations = append(out.Violations, v)
+				}
 			}
 		}
 		// keep a few samples per leg and per bucket; seed rotates which ones
@@ -411,7 +422,7 @@ func Coordinate(self string, ck *Check, tier string, seed int64, verifDir string
 	}
 	wg.Wait()
 
-	merged := &WorkerOut{Hist: map[string]uint64{}, LegHist: map[string]uint64{}, Complete: true}
+	merged := &WorkerOut{Hist: map[string]uint64{}, LegHist: map[string]uint64{}, Known: map[string]uint64{}, Complete: true}
 	engineErr := ""
 	for i, o := range outs {
 		if o == nil {
@@ -439,6 +450,9 @@ func Coordinate(self string, ck *Check, tier string, seed int64, verifDir string
 		for k, v := range o.LegHist {
 			merged.LegHist[k] += v
 		}
+		for k, v := range o.Known {
+			merged.Known[k] += v
+		}
 		merged.Samples = append(merged.Samples, o.Samples...)
 		merged.Violations = append(merged.Violations, o.Violations...)
 		merged.Complete = merged.Complete && o.Complete
@@ -449,6 +463,9 @@ func Coordinate(self string, ck *Check, tier string, seed int64, verifDir string
 		engineErr += "known_findings.json: " + ferr.Error() + "\n"
 	}
 	knownCount := map[string]int{}
+	for k, v := range merged.Known {
+		knownCount[k] += int(v)
+	}
 	var unknown []Violation
 	for i := range merged.Violations {
 		v := &merged.Violations[i]
@@ -519,10 +536,7 @@ func Coordinate(self string, ck *Check, tier string, seed int64, verifDir string
 	if len(unknown) > reported {
 		fmt.Printf("  (%d further violating cases not written out)\n", len(unknown)-reported)
 	}
-	if truncated && exit == 0 && len(unknown) == 0 {
-		// every recorded violation matched a known finding, but some were not recorded
-		fmt.Printf("note: %d violating cases occurred, %d recorded and all of those match known findings\n", merged.ViolationN, len(merged.Violations))
-	}
+	_ = truncated
 
 	// Anti-vacuity: required buckets.
 	if ck.Required != nil && merged.Complete && engineErr == "" {
